@@ -43,7 +43,11 @@ def prepare():
 
 
 def draw_cfg(st):
-    mode = ["nodes", "race"][st.weighted([70, 30], "mode")]
+    mode = ["nodes", "race", "fork"][st.weighted([68, 29, 3], "mode")]
+    if mode == "fork":
+        return {"mode": "fork", "world": "seq", "how": ["preserve", "task_id", "task_id_text"][st.choose(3, "how")],
+                "before": st.choose(3, "before"), "inside": 1 + st.choose(3, "inside"), "after": st.choose(3, "after"),
+                "child_raises": st.choose(4, "child_raises") == 3, "merge": st.choose(3, "merge")}
     if mode == "race":
         return {"mode": "race", "world": "threads", "n_racers": 2 + st.choose(3, "racers"),
                 "p_switch": [0.2, 0.05, 0.5][st.choose(3, "p_switch")],
@@ -311,8 +315,152 @@ def run_race(seed, dec, cfg):
     return res
 
 
+# ------------------------------------------------------------------ FORK mode
+def run_fork(seed, dec, cfg):
+    """The hand-over to a real forked process: the child continues the task (calls the preserve_context
+    callable / continue_task), the parent never does, drops the callable and carries on.  The two
+    processes' logs are merged in a drawn order and must parse as one complete task with the child's
+    sub-tree at the reserved position."""
+    import gc
+    import json
+    import os
+    rc = RunCtx(ID, seed, dec, cfg)
+    e = seams.eliot
+    rc.clock = seams.begin_run(seed)
+    class Recorder(object):
+        def __init__(self):
+            self.records = []
+
+        def __call__(self, message):
+            self.records.append(dict(message))
+    tap = Recorder()
+    child_msgs = []
+    viol = None
+    try:
+        e.add_destinations(tap)
+
+        def f(k):
+            for i in range(cfg["inside"]):
+                e.log_message(message_type="in-child", i=i)
+            if cfg["child_raises"]:
+                raise AppError("child failed")
+            return k
+
+        with e.start_action(action_type="origin") as a:
+            for i in range(cfg["before"]):
+                e.log_message(message_type="before", i=i)
+            holder = {}
+            if cfg["how"] == "preserve":
+                holder["h"] = e.preserve_context(f)
+            else:
+                tid = a.serialize_task_id()
+                holder["tid"] = tid.decode("ascii") if cfg["how"] == "task_id_text" else tid
+            n0 = len(tap.records)
+            r, w = os.pipe()
+            pid = os.fork()
+            if pid == 0:
+                status = 3
+                try:
+                    os.close(r)
+                    try:
+                        if "h" in holder:
+                            holder["h"](7)
+                        else:
+                            with e.Action.continue_task(task_id=holder["tid"]):
+                                f(7)
+                    except AppError:
+                        pass
+                    data = json.dumps(tap.records[n0:]).encode("utf-8")
+                    while data:
+                        data = data[os.write(w, data):]
+                    status = 0
+                except BaseException:  # noqa
+                    status = 4
+                finally:
+                    os._exit(status)
+            os.close(w)
+            buf = b""
+            while True:
+                chunk = os.read(r, 65536)
+                if not chunk:
+                    break
+                buf += chunk
+            os.close(r)
+            _pid, st_ = os.waitpid(pid, 0)
+            if not (os.WIFEXITED(st_) and os.WEXITSTATUS(st_) == 0):
+                from esim.sched import HarnessError
+                raise HarnessError("forked child ended with status %r" % (st_,))
+            child_msgs = json.loads(buf.decode("utf-8"))
+            rc.count_fault("real_fork")
+            # the parent never calls its copy; it lets go of it and carries on
+            holder.clear()
+            gc.collect()
+            for i in range(cfg["after"]):
+                e.log_message(message_type="after", i=i)
+        gc.collect()
+    except Violation as v:
+        viol = v
+    except Exception as ex:  # noqa
+        from esim.sched import HarnessError
+        if isinstance(ex, HarnessError):
+            raise
+        viol = Violation(("raised", {"exc": type(ex).__name__}), "hand-over raised %s: %s" % (type(ex).__name__, ex))
+    finally:
+        seams.end_run()
+    try:
+        if viol is not None:
+            raise viol
+        parent_msgs = json.loads(json.dumps(tap.records))
+        st = dec.stream("merge")
+        if cfg["merge"] == 0:
+            merged = parent_msgs + child_msgs
+        elif cfg["merge"] == 1:
+            merged = child_msgs + parent_msgs
+        else:
+            merged = parent_msgs + child_msgs
+            for i in range(len(merged) - 1, 0, -1):
+                j = st.choose(i + 1, "shuffle")
+                merged[i], merged[j] = merged[j], merged[i]
+        from eliot.parse import Parser, WrittenAction
+        try:
+            tasks = list(Parser.parse_stream(merged))
+        except Exception as ex:  # noqa
+            raise Violation(("parse", {"exc": type(ex).__name__}),
+                            "merged logs of parent and child do not parse: %s: %s" % (type(ex).__name__, ex))
+        if len(tasks) != 1 or not tasks[0].is_complete():
+            raise Violation("parse", "merged logs of parent and child: %d task(s), complete=%s" % (
+                len(tasks), [t.is_complete() for t in tasks]))
+        root = tasks[0].root()
+        kids = list(root.children)
+        want = ["before"] * cfg["before"] + ["<remote>"] + ["after"] * cfg["after"]
+        got = [("<remote>" if isinstance(k, WrittenAction) else k.contents.get("message_type")) for k in kids]
+        if got != want:
+            raise Violation("remote_misplaced", "children of the originating action are %r, expected %r" % (got, want))
+        remote = kids[cfg["before"]]
+        rtype = remote.start_message.contents.get("action_type") if remote.start_message is not None else None
+        rstatus = remote.end_message.contents.get("action_status") if remote.end_message is not None else None
+        inner = [getattr(c, "contents", {}).get("message_type") for c in remote.children]
+        if rtype != "eliot:remote_task" or inner != ["in-child"] * cfg["inside"] or \
+                rstatus != ("failed" if cfg["child_raises"] else "succeeded"):
+            raise Violation("remote_content", "the child's sub-tree is %r %r with children %r" % (rtype, rstatus, inner))
+        if len(merged) != len(parent_msgs) + len(child_msgs) or \
+                len(merged) != 2 + cfg["before"] + cfg["after"] + 2 + cfg["inside"]:
+            raise Violation(("message_count", {"dir": "more"}),
+                            "%d messages in the two logs, the two processes logged %d" % (
+                                len(merged), 4 + cfg["before"] + cfg["after"] + cfg["inside"]))
+    except Violation as v:
+        rc.fail_v(v)
+    prog = {"world": "seq", "actors": [[]], "types": {}}
+    res = base.result(rc, prog, nontrivial=True,
+                      distinct_extra=("fork", cfg["how"], cfg["before"], cfg["inside"], cfg["after"], cfg["merge"]))
+    res["sample"] = {"cfg": cfg}
+    return res
+
+
 def run_one(seed, dec):
     cfg = draw_cfg(dec.stream("cfg"))
+    if cfg["mode"] == "fork":
+        return run_fork(seed, dec, cfg)
     if cfg["mode"] == "race":
         return run_race(seed, dec, cfg)
     return run_nodes(seed, dec, cfg)
